@@ -312,6 +312,11 @@ func c11Association(j *Job) {
 			}
 		}
 	}
+	for _, il := range []bool{false, true} {
+		for _, kind := range []string{"middle", "first-unordered"} {
+			j.Explore(fmt.Sprintf("EF/il%v/%s", il, kind), c11EmptyFloodScenario(il, kind, 300), Budget{}, nil)
+		}
+	}
 	for _, cfg := range cfgs {
 		seq := make([]int, depth)
 		var rec func(i int)
@@ -330,5 +335,98 @@ func c11Association(j *Job) {
 			}
 		}
 		rec(0)
+	}
+}
+
+// heldChunks counts the chunk descriptors held for reassembly or unread delivery.
+func heldChunks(a *Association, extra ...*Stream) int {
+	n := 0
+	seen := map[*Stream]bool{}
+	var list []*Stream
+	for _, s := range a.streams {
+		seen[s] = true
+		list = append(list, s)
+	}
+	for _, s := range extra {
+		if s != nil && !seen[s] {
+			list = append(list, s)
+		}
+	}
+	for _, s := range list {
+		r := s.reassemblyQueue
+		for _, set := range r.ordered {
+			n += len(set.chunks)
+		}
+		for _, set := range r.unordered {
+			n += len(set.chunks)
+		}
+		n += len(r.unorderedChunks)
+		for _, set := range r.orderedMID {
+			n += len(set.chunks)
+		}
+		for _, set := range r.unorderedMID {
+			n += len(set.chunks)
+		}
+		for _, set := range r.unorderedMIDMap {
+			n += len(set.chunks)
+		}
+	}
+	return n
+}
+
+// c11EmptyFloodScenario: a peer that ignores the window sends DATA / I-DATA chunks without
+// user data, with consecutive TSNs (middle fragments of one message, or first fragments of
+// ever new unordered messages).  The byte window never closes on them; what the endpoint
+// holds must stay bounded all the same: it never holds more chunks than user bytes.
+func c11EmptyFloodScenario(il bool, kind string, n int) *Scenario {
+	return &Scenario{
+		Name:    "empty-flood",
+		Horizon: 300 * time.Second,
+		Setup:   func(m *Sim) { m.W.delay = [2]time.Duration{time.Millisecond, time.Millisecond} },
+		Body: func(m *Sim) {
+			ecfg := epCfg{Server: true, NoInterleave: !il, MTU: 1191, RTOMax: 4000, InitTSN: 5, RecvBuf: 1500}
+			p := newScripted(m, ecfg, il, false)
+			p.tsn0, p.tsn = 0xFFFFFF00, 0xFFFFFF00
+			if !p.connectServer() {
+				m.Failf("e2.base", "handshake with the scripted peer failed")
+				c03Teardown(m, p)
+				return
+			}
+			a := p.a
+			s1 := p.startReader(1)
+			p.sendMsg(1, 30, 1)
+			worst, worstBytes := 0, 0
+			for i := 0; i < n && a.getState() == established; i++ {
+				var c []byte
+				switch kind {
+				case "middle":
+					// middle fragments of the next message of stream 1
+					seq := uint32(p.ssn[1])
+					if p.il {
+						seq = p.mid[1]
+					}
+					c = p.dataChunk(p.tsn, 1, seq, uint32(1+i), 53, 0, nil, 0)
+				default:
+					// first fragments of ever new unordered messages
+					c = p.dataChunk(p.tsn, 1, uint32(1000+i), 0, 53, 2|4, nil, 0)
+				}
+				p.tsn++
+				p.inject(p.pkt(c))
+				if a.getState() != established {
+					break
+				}
+				held := heldChunks(a, s1)
+				bytes, _ := heldTotal(a, s1)
+				if held-bytes > worst-worstBytes {
+					worst, worstBytes = held, bytes
+				}
+			}
+			if worst > worstBytes+1 {
+				m.Failf("memory.empty-chunks", "after %d chunks without user data (%s) the endpoint holds %d chunk descriptors for %d user bytes and is still established: what a peer can make it hold is not bounded by the receive buffer", n, kind, worst, worstBytes)
+			}
+			m.Observe("state=%s worst=%d/%d", getAssociationStateString(a.getState()), worst, worstBytes)
+			c03Teardown(m, p)
+		},
+		Final: func(m *Sim, x *Exec) { generalVerdicts(m, x, false) },
 	}
 }
